@@ -143,6 +143,7 @@ func C02(c *Ctx) {
 	c.rootRule("C02-7")
 	c.methodIterationRule("C02-8")
 	c.nodeAccessorRule("C02-10")
+	c.createFunctionShapeRule("C02-11", "reverse-pointer")
 	c.namingRule("C02-9", "/pkg/builder/model", "/pkg/builder", "/pkg/generator/model", "/pkg/generator")
 }
 
